@@ -162,6 +162,18 @@ CLAIMED: dict[str, tuple[str, str, str, str, str]] = {
         "need-more or a protocol parse error with >= 1 byte consumed are behaviours).",
         "Trusted: TLC; the mutation operators' reach. pickle is fuzzed through a restricted unpickler; cbor/msgpack are not importable offline.",
     ),
+    "C13": (
+        "model_checking",
+        "TLA+ spec CancelScope (reference semantics as an interpreter over programs-as-data) model-checked by TLC on a systematic family of small "
+        "programs x external-cancel ticks (totality, caught=>cancelled, unwinding has a cause, never through a shield); generated scope programs "
+        "executed on the real asyncio backend in virtual time, every observable step validated by TLC against CancelScopeTrace",
+        "DESIGN.md section 6 (C13)",
+        "The semantics is exactly as strong as the property and nondeterministic where the property is (exact timer ties, catch-or-propagate when "
+        "an enclosing scope is cancelled too); TLC decides for every recorded program execution whether it is one of the allowed behaviours, "
+        "including scope ids, cancelled_caught / cancel_called, the exception leaving each scope, virtual time and task.cancelling() at the end.",
+        "Trusted: TLC; the virtual-time event loop of the harness. Programs are single-task (task-group children are not generated). Known finding "
+        "F8 (external cancellation lost behind ignore_cancellation + cancelled scope) is listed in known_findings.json.",
+    ),
 }
 
 NOT_YET = "check not built yet in this revision of /verif (planned: see DESIGN.md section 0); not claimed until its check exists"
